@@ -16,7 +16,7 @@ from .sched import Sched, SLock, SExecutor, Deadlock
 LEVEL = "exploration"
 RULE = ("2-3 client threads x 1-2 operations each from get(f) / update(f, v) / unload(f) on 1-2 files (initial contents on "
         "disk or absent, cache limit fits everything / 4, 5 or 8 bytes with contents of 1-8 bytes, some filling it exactly) x a schedule (either <= 60 dense choices or <= 4 preemption points anywhere in the first 80 steps) at the yield points (lock "
-        "acquire and release, task submission, task start, future wait, exists, getsize, makedirs, open, read, write, close, fsync) "
+        "acquire and release, task submission, task start, future wait, exists / isfile / isdir / stat, getsize, makedirs, open, read, write, close, fsync) "
         "with 0 = continue; non-trivial = two operations on the same file overlap in time and at least one is an update; "
         "distinct by (programs, schedule prefix actually consumed)")
 ASSUMPTIONS = [
